@@ -631,20 +631,20 @@ int get_cycle_count(uint16_t opcode)
       else
     if (As == 3)  // #value and @Rn+
     {
-      if (dst_reg == 0) { return 3; } // Dest PC
+      if (dst_reg == 0 && Ad == 0) { return 3; } // Dest PC
       if (Ad == 0) { return 2; }      // Dest Rm
       return 5;                       // Dest x(Rm), EDE, &EDE
     }
       else
     if (As  ==  2)  // @Rn
     {
-      if (dst_reg  ==  0) { return 2; } // Dest PC
+      if (dst_reg  ==  0 && Ad == 0) { return 2; } // Dest PC
       if (Ad  ==  0) { return 2; }    // Dest Rm
       return 5;                       // Dest x(Rm), EDE, &EDE
     }
       else     // Rn
     {
-      if (dst_reg == 0) { return 2; } // Dest PC
+      if (dst_reg == 0 && Ad == 0) { return 2; } // Dest PC
       if (Ad == 0) { return 1; }    // Dest Rm
       return 4;                     // Dest x(Rm), EDE, &EDE
     }
